@@ -325,3 +325,190 @@ Proof.
   - vm_compute. repeat constructor.
   - vm_compute. discriminate.
 Qed.
+
+(* ======================================================================== *)
+(* PosPriorityQueue, boosting disabled: HISTORY-LEVEL refinement to the list  *)
+(* model "positional prefix ++ regular entries by (priority, arrival)".       *)
+(* Proofs in Queue/PosRefine.v (on top of Queue/PosList.v).                   *)
+(* ======================================================================== *)
+From Asynkit Require Import Base.Obs Queue.PosList Queue.PQCorr Queue.PosRefine.
+
+(* The abstract model (Queue/PosRefine.v):
+     rpos = { rposl : list Z            objects scheduled at a position, in order
+              rreg  : list rent         regular entries (robj, rpri, rarr), kept
+                                        ascending for rlt = (priority, arrival)
+              rnext : Z }               next arrival number
+     run_order r = rposl r ++ map robj (rreg r)
+   with operations r_append, r_insert, r_popleft, r_remove, r_find, r_resched,
+   r_resched_all, r_clear; rstep/rrun execute a [posop] history on it and
+   pstep/prun execute the same history on the implementation model (pstep HPV is
+   PQCorr.pos_step with results as a data type, see C17_pos_prun_is_checked_run).
+
+   What the abstract operations do to the run order (for a model state without
+   duplicates): nothing is lost or duplicated and untouched items keep their
+   relative order.  reschedule(o, p) of a regular entry re-inserts it by
+   (p, ITS OLD ARRIVAL NUMBER) - the implementation keeps the old sequence
+   number - so among entries of priority p it goes where its original arrival
+   puts it, not to the end; a positional entry is not moved. *)
+Theorem C17_pos_model_ops : forall r : rpos, NoDup (run_order r) ->
+  (* append(o, p): o is added, everything else keeps its order *)
+  (forall o p, ~ In o (run_order r) ->
+     Permutation (run_order (r_append r o p)) (o :: run_order r) /\
+     remove_first (Z.eqb o) (run_order (r_append r o p)) = run_order r) /\
+  (* insert(k, o): list insert at min(k, len) *)
+  (forall k o, run_order (r_insert r k o)
+               = firstn k (run_order r) ++ o :: skipn k (run_order r)) /\
+  (* popleft: the head *)
+  (forall o r', r_popleft r = Some (o, r') -> run_order r = o :: run_order r') /\
+  (r_popleft r = None -> run_order r = []) /\
+  (* remove(o) / find(o, remove=True): delete o *)
+  (forall o r', r_remove r o = Some r' ->
+     run_order r' = remove_first (Z.eqb o) (run_order r)) /\
+  (forall o, r_remove r o = None -> ~ In o (run_order r)) /\
+  (* reschedule(o, p): only o moves *)
+  (forall o p o' r', r_resched r o p = Some (o', r') ->
+     o' = o /\ Permutation (run_order r') (run_order r) /\
+     remove_first (Z.eqb o) (run_order r') = remove_first (Z.eqb o) (run_order r)) /\
+  (* reschedule_all: positional prefix untouched, regular entries permuted
+     (re-sorted by the new priorities, stably w.r.t. the old run order) *)
+  (forall getp, rposl (r_resched_all r getp) = rposl r /\
+     Permutation (run_order (r_resched_all r getp)) (run_order r)) /\
+  run_order (r_clear r) = [].
+Proof. exact r_contents. Qed.
+Print Assumptions C17_pos_model_ops.
+
+(* the order of the abstract regular part: rlt a b = true  iff  priority of a is
+   smaller, or equal with a smaller arrival number *)
+Theorem C17_pos_model_order : forall a b : rent,
+  rlt a b = true <-> (rpri a < rpri b)%Q \/ ((rpri a == rpri b)%Q /\ (rarr a < rarr b)%Z).
+Proof. exact rlt_spec. Qed.
+Print Assumptions C17_pos_model_order.
+
+(* The simulation relation, spelled out: the queue invariant PInv; the model has
+   no duplicates; the key-sorted entry list plist H p (= the pop order, Queue/
+   PosList.v) is Pz ++ G where Pz are class-0 entries whose objects are rposl r
+   and G are class-1 entries matching rreg r one by one (same object, priority()
+   == model priority, no boost), with sequence numbers ordered like the model's
+   arrival numbers (they are not equal: the implementation resets and re-assigns
+   sequence numbers); model arrivals are below rnext. *)
+Theorem C17_pos_R_meaning : forall (H : heapimpl pv) (p : pos) (r : rpos),
+  R H p r <->
+  PInv H p /\ NoDup (run_order r) /\
+  exists Pz G, plist H p = Pz ++ G /\
+    Forall (fun e => pclass (epri e) = 0%Z) Pz /\ map (@eobj pv) Pz = rposl r /\
+    Forall2 (fun e x => pclass (epri e) = 1%Z /\ eobj e = robj x /\
+                        (pv_priority (epri e) == rpri x)%Q /\ (boost (epri e) == 0)%Q)
+            G (rreg r) /\
+    (forall e x g y, In (e, x) (combine G (rreg r)) -> In (g, y) (combine G (rreg r)) ->
+       (eseq e <? eseq g)%Z = (rarr x <? rarr y)%Z) /\
+    Forall (fun x => (rarr x < rnext r)%Z) (rreg r).
+Proof. intros. reflexivity. Qed.
+Print Assumptions C17_pos_R_meaning.
+
+(* ... hence: the objects in pop order are the model's run order, the array holds
+   exactly the model's objects, each once, and the model's regular part is
+   strictly ascending for (priority, arrival) *)
+Theorem C17_pos_R_facts : forall (H : heapimpl pv), plt H = pv_lt -> HeapSpec H ->
+  forall p r, R H p r ->
+    map (@eobj pv) (plist H p) = run_order r /\
+    Permutation (map (@eobj pv) (arr (pq_ p))) (run_order r) /\ NoDup (run_order r) /\
+    length (arr (pq_ p)) = length (run_order r) /\
+    StronglySorted (fun a b => rlt a b = true) (rreg r).
+Proof.
+  intros H Hplt HS p r HR. split; [exact (R_objs H p r HR)|].
+  destruct (R_contents H p r HR) as (H1 & H2 & H3).
+  repeat (split; [assumption|]). exact (R_rsorted H Hplt p r HR).
+Qed.
+Print Assumptions C17_pos_R_facts.
+
+(* THE REFINEMENT, one operation: results are equal and R is preserved.  The
+   only obligation (on the model side): an appended / inserted object is not
+   already queued. *)
+Theorem C17_pos_refines_step :
+  forall (H : heapimpl pv), plt H = pv_lt -> HeapSpec H ->
+    forall p r op, R H p r ->
+      match op with
+      | QAppend o _ | QAppendPri o _ | QInsert _ o => ~ In o (run_order r)
+      | _ => True
+      end ->
+      fst (pstep H p op) = fst (rstep r op) /\ R H (snd (pstep H p op)) (snd (rstep r op)).
+Proof. exact step_refines. Qed.
+Print Assumptions C17_pos_refines_step.
+
+(* THE REFINEMENT, whole histories (append, append_pri, insert, popleft, remove,
+   find with/without removal, reschedule, reschedule_all, clear, iteration,
+   len; any heap implementation meeting heapq's contract): from R-related states,
+   for every operation list whose appended/inserted objects are fresh on the
+   model ([rok_run]), the implementation model returns exactly the list model's
+   results and ends R-related to the model's final state. *)
+Theorem C17_pos_refines :
+  forall (H : heapimpl pv), plt H = pv_lt -> HeapSpec H ->
+    forall (ops : list posop) (p : pos) (r : rpos),
+      R H p r -> rok_run r ops ->
+      fst (prun H p ops) = fst (rrun r ops) /\
+      R H (snd (prun H p ops)) (snd (rrun r ops)).
+Proof. exact pos_run_refines. Qed.
+Print Assumptions C17_pos_refines.
+
+(* ... from the empty queue (boost factor 0, any draw stream), closed instance
+   for the executed heap (CPython's heapq algorithm): no hypothesis besides
+   freshness of added objects *)
+Theorem C17_pos_refines_from_empty :
+  forall (draws : list Q) (ops : list posop), rok_run r_empty ops ->
+    fst (prun HPV (pos_empty 0%Q draws) ops) = fst (rrun r_empty ops) /\
+    R HPV (snd (prun HPV (pos_empty 0%Q draws) ops)) (snd (rrun r_empty ops)).
+Proof.
+  intros ds ops.
+  exact (pos_run_refines_empty HPV eq_refl (heapq_model_spec pv_lt pv_dflt pv_lt_strict_weak) ds ops).
+Qed.
+Print Assumptions C17_pos_refines_from_empty.
+
+Theorem C17_pos_refines_from_empty_any_heap :
+  forall (H : heapimpl pv), plt H = pv_lt -> HeapSpec H ->
+    forall (draws : list Q) (ops : list posop), rok_run r_empty ops ->
+      fst (prun H (pos_empty 0%Q draws) ops) = fst (rrun r_empty ops) /\
+      R H (snd (prun H (pos_empty 0%Q draws) ops)) (snd (rrun r_empty ops)).
+Proof. exact pos_run_refines_empty. Qed.
+Print Assumptions C17_pos_refines_from_empty_any_heap.
+
+(* [prun HPV] is the run that the correspondence check compares with the real
+   class: PQCorr.pos_run_from prints, for every step, the result of pstep (as an
+   observation) and the complete state *)
+Theorem C17_pos_prun_is_checked_run : forall ops s,
+  Forall2 (fun ob x => exists st, ob = OL [pres_obs x; st])
+          (pos_run_from s ops) (fst (prun HPV s ops)).
+Proof. exact prun_is_corr_run. Qed.
+Print Assumptions C17_pos_prun_is_checked_run.
+
+(* pop order: popping everything returns exactly the model's run order
+   (positional prefix, then regular entries by (priority, arrival)) and leaves
+   the queue empty *)
+Theorem C17_pos_drain_order :
+  forall (H : heapimpl pv), plt H = pv_lt -> HeapSpec H ->
+    forall p r, R H p r ->
+      let n := length (run_order r) in
+      fst (prun H p (repeat QPopleft n)) = map PObj (run_order r) /\
+      arr (pq_ (snd (prun H p (repeat QPopleft n)))) = [].
+Proof. exact pos_drain_order. Qed.
+Print Assumptions C17_pos_drain_order.
+
+(* observation (iteration, len, find without removal) leaves the model state
+   unchanged; by C17_pos_refines all later results are functions of it *)
+Theorem C17_pos_observation : forall r : rpos,
+  snd (rstep r QIter) = r /\ snd (rstep r QLen) = r /\
+  forall o, snd (rstep r (QFind o false)) = r.
+Proof. exact rstep_observation. Qed.
+Print Assumptions C17_pos_observation.
+
+(* the hypothesis is satisfiable by a non-trivial history (ties, insert beyond
+   the length, reschedule of regular entries, reschedule_all, removal) *)
+Example C17_pos_refines_example :
+  rok_run r_empty ex_hist /\
+  fst (prun HPV (pos_empty 0%Q []) ex_hist)
+  = [PUnit; PUnit; PUnit; PUnit; PUnit; PObj 3; PObj 1; PUnit; PUnit;
+     PList [4; 6; 2; 5; 1; 3]; PObj 4; PUnit; PObj 2; PObj 1; PUnit; PLen 4;
+     PList [6; 5; 1; 9]]%Z.
+Proof.
+  split; [exact ex_hist_ok|].
+  rewrite (proj1 (C17_pos_refines_from_empty [] ex_hist ex_hist_ok)). exact ex_hist_results.
+Qed.
